@@ -49,6 +49,15 @@ def cases(rng, tier):
             {"op": "authorize", "client": "c1", "redirect": at_auth, "scope": "a", "challenge": None, "method": None, "user": 1, "approve": True},
             {"op": "redeem", "auth": ["c1", "client_secret_basic"], "code": "code1", "redirect": at_token, "verifier": None}],
             "expect": [at_auth == esc, at_auth == esc and at_token == esc]})      # a code is issued for the registered spelling only; it is redeemed with the identical string only
+    # a confidential client registered without an explicit token_endpoint_auth_method: its codes and device codes are redeemed with its secret only
+    for auth in (["c3", "none"], ["c3", "client_secret_post"], ["c3", "client_secret_basic"]):
+        out.append({"cfg": dict(H.World().cfg), "ops": [
+            {"op": "authorize", "client": "c3", "redirect": None, "scope": "a", "challenge": None, "method": None, "user": 1, "approve": True},
+            {"op": "redeem", "auth": auth, "code": "code1", "redirect": None, "verifier": None}], "auth_as_registered": auth[1] == "client_secret_basic"})
+        out.append({"cfg": dict(H.World().cfg), "ops": [
+            {"op": "device_authorize", "auth": ["c3", "client_secret_basic"], "client_id": "c3", "scope": "a"},
+            {"op": "user_decide", "uc": 2, "user": 1, "approve": True},
+            {"op": "poll", "auth": auth, "dc": "dc1"}], "auth_as_registered": auth[1] == "client_secret_basic"})
     # near-miss spellings of the redirect URI at the token endpoint: "the identical redirect URI that was sent at authorization"
     for base in ("https://c1/cb", "https://c1/dir/"):
         for near in (base, base + "/", base.rstrip("/"), base + "?", base + "#", base.replace("c1", "C1"), base + " ", " " + base, base.replace("https", "HTTPS"), base + "//",
@@ -170,6 +179,8 @@ def impl(c):
 def model_line(c):
     if "jwt_owner" in c or "consent_decision" in c:
         return None
+    if c.get("auth_as_registered") is False:
+        return None          # (the state machine takes "authenticated as" for granted; which method authenticates whom is C07's model)
     return {"cfg": c["cfg"], "ops": c["ops"]}
 
 
@@ -273,6 +284,15 @@ _oracle_hist = H.oracle_all(oracle_core)
 
 
 def oracle(c, out):
+    if "auth_as_registered" in c:
+        base = out if "outs" in out else out
+        last = out["outs"][-1]
+        got = last.get("access") is not None
+        if got != c["auth_as_registered"]:
+            return [(f"client c3 (confidential, registered without token_endpoint_auth_method) presenting itself through {c['ops'][-1]['auth'][1]} at the "
+                     f"{c['ops'][-1]['op']} step: token issued = {got} ({last.get('error')}); its code / device code is redeemable with its secret through HTTP Basic only",
+                     {"kind": "client-binding", "how": "default-auth-method"})]
+        return []
     if "consent_decision" in c:
         j = c["consent_decision"]
         if not j["approve"] and (out["handed_out"] or out["stored_codes"] or out["stored_tokens"] or out.get("redeemed")):
